@@ -1,0 +1,31 @@
+//go:build verif
+
+package stream
+
+// Contracts for the serialising writer that the logger writes its records
+// through (property C44: "Every logged message ... produces exactly one line
+// in the log"; lines of concurrent goroutines must not be interleaved).
+// Comment-only file, read by govc.
+
+// cwheld counts, during one call of concurrentWriter.Write, the Lock calls
+// minus the Unlock calls made on the writer's mutex so far (ghost history
+// variable, assigned by the set clauses below only).
+//@ ghost cwheld int
+
+// NewConcurrentWriter wraps exactly the writer it is given.
+//@ func NewConcurrentWriter
+//@   ensures[wraps] result != nil && unboxptr(result, "concurrentWriter").writer == writer
+
+// Write forwards exactly its buffer to exactly the wrapped writer, exactly
+// once [same, once], and only while it holds the writer's mutex [locked]; the
+// mutex is released again on return [released]. That sync.Mutex gives mutual
+// exclusion between goroutines is the Go runtime's contract (trusted).
+//@ func (*concurrentWriter).Write
+//@   requires w != nil
+//@   at entry set cwheld = 0
+//@   at call sync.(*Mutex).Lock set cwheld = cwheld + 1
+//@   at call sync.(*Mutex).Unlock set cwheld = cwheld - 1
+//@   at call io.Writer.Write assert[locked] cwheld == 1
+//@   at call io.Writer.Write assert[same] arg0 == w.writer && arg1 == buffer
+//@   ensures[released] cwheld == 0
+//@   ensures[once] wcalls[w.writer] == old(wcalls[w.writer]) + 1
